@@ -22,6 +22,7 @@ import (
 
 	"github.com/pingcap/kvproto/pkg/pdpb"
 	"github.com/tikv/pd/pkg/grpcutil"
+	"github.com/tikv/pd/pkg/tsoutil"
 	"github.com/tikv/pd/server/config"
 	"github.com/tikv/pd/server/tso"
 	"go.etcd.io/etcd/clientv3"
@@ -40,17 +41,26 @@ type topo struct {
 	Zones    []string // zone label of member i
 	Late     []bool   // member i is started after the first phase (its dc may join later)
 	Transfer bool     // local allocator leaders are moved during the rounds
-	// RemoteFirst asks for the first dc's allocator to be moved away from the PD leader before a
-	// late dc joins (both placements of a dc's allocator relative to the PD leader are legal).
-	RemoteFirst bool
+	// Placement of the first dc's allocator relative to the PD leader before a late dc joins (both
+	// are legal placements; PD itself does not prefer one): "remote" moves it away from the PD
+	// leader, "colocated" moves it onto the PD leader, "" leaves it where the election put it.
+	Before string
+	// Ahead: before the late dc joins, the administrator moves the TSO forward by 15 s through
+	// Handler.ResetTS (the supported reset-ts operation), so that the running allocators are ahead
+	// of the wall clock - the situation clock differences between datacenters produce.
+	Ahead bool
 }
 
-// class is the coarse kind of history a topology produces; it is part of every violation key.
-func (t topo) class() string {
+// class is the coarse kind of history the cluster produced; it is part of every violation key.
+func (c *cluster) class() string {
 	switch {
-	case t.Late != nil:
-		return "dc-joins-later"
-	case t.Transfer:
+	case c.t.Late != nil:
+		// what matters for a joining dc is whether the PD leader itself led a local allocator then
+		if c.joinClass == "" {
+			return "dc-joins-later/before-join"
+		}
+		return "dc-joins-later/" + c.joinClass
+	case c.t.Transfer:
 		return "allocator-moves"
 	}
 	return "static"
@@ -64,7 +74,9 @@ var topologies = map[string]topo{
 	"2dc-move": {Name: "2dc-move", Zones: []string{"dc-1", "dc-1", "dc-2"}, Transfer: true},
 	"late-dc":  {Name: "late-dc", Zones: []string{"dc-1", "dc-1", "dc-2"}, Late: []bool{false, false, true}},
 	"late-dc-remote": {Name: "late-dc-remote", Zones: []string{"dc-1", "dc-1", "dc-2"}, Late: []bool{false, false, true},
-		RemoteFirst: true},
+		Before: "remote", Ahead: true},
+	"late-dc-colocated": {Name: "late-dc-colocated", Zones: []string{"dc-1", "dc-1", "dc-2"}, Late: []bool{false, false, true},
+		Before: "colocated", Ahead: true},
 	"late-3rd": {Name: "late-3rd", Zones: []string{"dc-1", "dc-2", "dc-3"}, Late: []bool{false, false, true}},
 }
 
@@ -104,6 +116,8 @@ type cluster struct {
 	wdone    chan struct{}
 	prefix   string
 	dcPrefix string
+
+	joinClass string // "pd-leader-leads-no-allocator" | "pd-leader-leads-an-allocator", fixed when the late member starts
 }
 
 func (c *cluster) note(format string, a ...interface{}) {
@@ -425,7 +439,7 @@ func (q *requester) do(dc string, count uint32, mode string, round int, force in
 				if p := recover(); p != nil {
 					o.Ret = hist.Tick()
 					o.Err = fmt.Sprintf("panic: %v", p)
-					c.r.Violation("panic-in-tso-request:"+c.t.class(), fmt.Sprintf("HandleTSORequest(%s,%d) panicked: %v", dc, count, p),
+					c.r.Violation("panic-in-tso-request:"+c.class(), fmt.Sprintf("HandleTSORequest(%s,%d) panicked: %v", dc, count, p),
 						map[string]interface{}{"op": o, "notes": c.notesCopy()})
 				}
 			}()
@@ -630,6 +644,69 @@ func (c *cluster) round(rd int, rng *rand.Rand, dcs []string, during func()) str
 	return shape
 }
 
+// beforeJoin prepares the situation in which the late dc joins: placement of the first dc's
+// allocator relative to the PD leader, and (Ahead) allocators that run ahead of the wall clock.
+func (c *cluster) beforeJoin(rng *rand.Rand, dcs []string) bool {
+	t := c.t
+	if t.Before != "" {
+		gi, _ := c.serving(globalDC)
+		li, _ := c.serving(dcs[0])
+		moved := false
+		switch {
+		case t.Before == "remote" && li == gi && li >= 0:
+			moved = c.move(dcs[0], rng)
+		case t.Before == "colocated" && li != gi && li >= 0 && gi >= 0:
+			moved = c.moveTo(dcs[0], gi, rng)
+		default:
+			li = -1
+		}
+		if li >= 0 {
+			if !moved || !c.waitMoved(dcs[0], li, 60*time.Second) {
+				c.r.Count("placement_before_join_not_reached", 1)
+			}
+			if !c.waitServing(dcs, 90*time.Second) {
+				c.r.Inconclusive("%s: allocators did not serve again after the move before the join (placement %s)", t.Name, c.placement())
+				return false
+			}
+			c.note("serving: %s", c.placement())
+		}
+	}
+	if t.Ahead {
+		q := &requester{c: c, id: 700, streams: map[string]pdpb.PD_TsoClient{}}
+		defer q.close()
+		o := q.do(globalDC, 1, modeDirect, -3, -1)
+		_, m := c.serving(globalDC)
+		if o.Err != "" || m == nil {
+			c.r.Inconclusive("%s: no global timestamp before the administrative reset", t.Name)
+			return false
+		}
+		target := o.Physical + 15000
+		err := m.Srv.GetHandler().ResetTS(tsoutil.GenerateTS(tsoutil.GenerateTimestamp(time.Unix(0, target*int64(time.Millisecond)), 0)))
+		c.note("admin reset-ts to physical %d (15 s ahead) err=%v", target, err)
+		if err != nil {
+			c.r.Count("admin_reset_refused", 1)
+		} else {
+			c.r.Count("admin_resets", 1)
+		}
+		// a few global requests carry the new time to every local allocator (write phase)
+		for i := 0; i < 3; i++ {
+			q.do(globalDC, 1, modeDirect, -3, -1)
+		}
+		for _, dc := range dcs {
+			q.do(dc, 1, modeDirect, -3, -1)
+		}
+	}
+	gi, _ := c.serving(globalDC)
+	c.joinClass = "pd-leader-leads-no-allocator"
+	for _, dc := range dcs {
+		if li, _ := c.serving(dc); li == gi && li >= 0 {
+			c.joinClass = "pd-leader-leads-an-allocator"
+		}
+	}
+	c.note("late dc is about to join: %s (%s)", c.placement(), c.joinClass)
+	return true
+}
+
 // prologue is the quiet sequential phase (the shape of the repository's own test): one requester
 // alternates global and local requests with equal counts, so that the allocators are in lock-step
 // (estimate == local maximum, the "equal" branch of SyncMaxTS) before the concurrent rounds start.
@@ -656,9 +733,8 @@ func (c *cluster) prologue(rng *rand.Rand, dcs []string) {
 // priority check (what the 1-minute timer does), so that the current leader resigns.
 func (c *cluster) move(dc string, rng *rand.Rand) bool {
 	cur, _ := c.serving(dc)
-	ms := c.members()
 	var cands []int
-	for i, m := range ms {
+	for i, m := range c.members() {
 		if m != nil && i != cur {
 			cands = append(cands, i)
 		}
@@ -666,7 +742,15 @@ func (c *cluster) move(dc string, rng *rand.Rand) bool {
 	if cur < 0 || len(cands) == 0 {
 		return false
 	}
-	to := cands[rng.Intn(len(cands))]
+	return c.moveTo(dc, cands[rng.Intn(len(cands))], rng)
+}
+
+func (c *cluster) moveTo(dc string, to int, rng *rand.Rand) bool {
+	cur, _ := c.serving(dc)
+	ms := c.members()
+	if cur < 0 || to == cur || ms[to] == nil {
+		return false
+	}
 	tam := ms[to].Srv.GetTSOAllocatorManager()
 	if _, err := tam.GetAllocator(dc); err != nil {
 		// the target has not discovered the dc yet (it does so on its periodic dc-location check):
@@ -738,15 +822,8 @@ func runTopology(r *ev.Run, t topo, rng *rand.Rand, rounds int) {
 	var shapes []string
 	for rd := 0; rd < rounds; rd++ {
 		if rd == lateAt {
-			if t.RemoteFirst {
-				gi, _ := c.serving(globalDC)
-				if li, _ := c.serving(dcs[0]); li == gi && li >= 0 {
-					if !c.move(dcs[0], rng) || !c.waitMoved(dcs[0], li, 60*time.Second) {
-						c.r.Count("remote_first_not_reached", 1)
-					}
-					c.waitServing(dcs, 60*time.Second)
-					c.note("serving: %s", c.placement())
-				}
+			if !c.beforeJoin(rng, dcs) {
+				return
 			}
 			// the late member joins while a round is running
 			ok := true
@@ -799,7 +876,7 @@ func runTopology(r *ev.Run, t topo, rng *rand.Rand, rounds int) {
 
 func main() {
 	r := ev.New("C05", "exploration")
-	r.Rule("per topology (3 real servers, local TSO on, zone labels): rounds of {4-8 requester goroutines per dc x 5-12 requests, 1-4 global requesters x 3-7 requests, one chain worker local->global->local}, counts from {1,10,1000,2^15} (every 5th round mostly 2^15), transport per requester from {HandleTSORequest on the serving member, gRPC Tso stream, forwarded gRPC Tso stream}, 4% of requests to a random member; each topology starts with a quiet sequential phase global/local with equal counts; topologies: 3 dcs x 1 member, 2 dcs 2+1, 1 dc, a dc joining later (3 variants), allocator moves; distinct = (topology, round index, goroutine counts per dc, round seed). Add-on: gated schedules of suffix assignment with a PD-leader change (old leader parked before its create-if-absent txn; release order by seed); distinct = (keys the two leaders were about to create, release order)")
+	r.Rule("per topology (3 real servers, local TSO on, zone labels): rounds of {4-8 requester goroutines per dc x 5-12 requests, 1-4 global requesters x 3-7 requests, one chain worker local->global->local}, counts from {1,10,1000,2^15} (every 5th round mostly 2^15), transport per requester from {HandleTSORequest on the serving member, gRPC Tso stream, forwarded gRPC Tso stream}, 4% of requests to a random member; each topology starts with a quiet sequential phase global/local with equal counts; topologies: 3 dcs x 1 member, 2 dcs 2+1, 1 dc, a dc joining later (4 variants: placement of the running allocator relative to the PD leader forced or free, allocators moved 15 s ahead of the wall clock by the admin reset-ts operation or not), allocator moves; distinct = (topology, round index, goroutine counts per dc, round seed). Add-on: gated schedules of suffix assignment with a PD-leader change (old leader parked before its create-if-absent txn; release order by seed); distinct = (keys the two leaders were about to create, release order)")
 	r.Assume("the logical clock (lib/hist) orders call/return events of all requesters of the process; a suffix is taken as stored when the etcd watch has delivered it before the request's call tick (under-approximation)")
 	r.Assume("errors grant nothing and impose no constraint; clock failpoints are not used; all members run in one process on one wall clock")
 	rng := rand.New(rand.NewSource(r.ShardSeed()))
@@ -807,14 +884,14 @@ func main() {
 
 	var plan []string
 	if !r.Thorough() {
-		plan = []string{"3dc", "late-dc-remote"}
+		plan = []string{"3dc", "late-dc-remote", "late-dc-colocated"}
 	} else {
-		all := []string{"3dc", "2dc", "1dc", "3dc-move", "2dc-move", "late-dc", "late-dc-remote", "late-3rd"}
+		all := []string{"3dc", "2dc", "1dc", "3dc-move", "2dc-move", "late-dc", "late-dc-remote", "late-dc-colocated", "late-3rd"}
 		if r.Shards < 4 {
 			plan = all
 		} else {
 			// every topology is run by two shards (with different seeds)
-			plan = []string{all[r.Shard%len(all)], all[(r.Shard+3)%len(all)]}
+			plan = []string{all[r.Shard%len(all)], all[(r.Shard+4)%len(all)]}
 		}
 	}
 	if only := os.Getenv("VERIF_C05_ONLY"); only != "" { // development aid: run a chosen list of topologies ("-" = none)
@@ -829,11 +906,11 @@ func main() {
 		t := topologies[name]
 		rounds := r.Pick(30, 150)
 		if t.Late != nil && !r.Thorough() {
-			rounds = 12
+			rounds = 10
 		}
 		runTopology(r, t, rng, rounds)
 	}
-	suffixAddon(r, rng, r.Pick(24, 60))
+	suffixAddon(r, rng, r.Pick(40, 80))
 	r.Floor(int64(r.Pick(30, 100)))
 	r.Finish()
 }
